@@ -376,4 +376,189 @@ Section RW.
       + injection E as <- <- _ <-. inversion W; subst; cbn [entry']; leaf.
       + discriminate E.
   Qed.
+
+  (* ---------- the global invariant ---------- *)
+  Definition nown (ths : list thread) (j : nat) : Z := sumZ (fun th => ownz th j) ths.
+  Definition ncnt (ths : list thread) (j : nat) : Z := sumZ (fun th => rdz th j) ths.
+  Definition WordsOk (s : state) : Prop :=
+    length (words s) = N /\
+    forall j, (j < N)%nat -> nth j (words s) 0 = WB * nown (threads s) j + ncnt (threads s) j /\ nown (threads s) j <= 1.
+  Definition Excl (s : state) : Prop :=
+    forall th1 th2 j, In th1 (threads s) -> In th2 (threads s) -> (j < drain_upto th1)%nat -> tmode th2 = MR j -> False.
+  Definition NoLost (s : state) : Prop :=
+    forall i, (exists th k, In th (threads s) /\ tpc th = PBlocked i k) -> nth i (words s) 0 = WB ->
+              exists th k, In th (threads s) /\ tpc th = PRelWake i k.
+  Definition Inv (s : state) : Prop :=
+    Z.of_nat (length (threads s)) < 2147483648 /\ WordsOk s /\ Forall wf_thread (threads s) /\ Excl s /\ NoLost s.
+
+  Lemma pslot_lt th : wf_thread th -> (pslot (tpc th) < N)%nat.
+  Proof.
+    destruct th as [p pr rs m]. unfold wf_thread; cbn [tpc tmode prog]. destruct m; destruct p; cbn [pslot]; intros W; try lia;
+      try (destruct k); try tauto; try lia.
+  Qed.
+
+  Lemma drained_owns x jj : wf_thread x -> (jj < drain_upto x)%nat -> ownz x jj = 1.
+  Proof.
+    destruct x as [p pr rs m]. intros Wx Hdx. unfold wf_thread, drain_upto, ownz, own_range in *; cbn [tpc tmode prog] in *.
+    destruct m; [destruct p; cbn [own_range_pc fst snd] in *; try lia; destruct Wx as (Hi & _); nat_cases; cbn; lia
+                | cbn [fst snd]; nat_cases; cbn; lia | lia].
+  Qed.
+
+  Lemma blocked_owns x a k : wf_thread x -> tpc x = PBlocked a k -> ownz x a = 1.
+  Proof.
+    destruct x as [p pr rs m]. intros Wx Px. cbn in Px. subst p. unfold wf_thread, ownz, own_range in *; cbn [tpc tmode prog] in *.
+    destruct m; [destruct Wx as (Hi & _); cbn [own_range_pc fst snd]; nat_cases; cbn; lia | destruct Wx as [_ []] | destruct Wx as [_ []]].
+  Qed.
+
+  Lemma sumZ_others_le {A} (f : A -> Z) l t x :
+    (forall y, 0 <= f y <= 1) -> nth_error l t = Some x -> sumZ f l - f x <= Z.of_nat (length l) - 1.
+  Proof.
+    intros P. revert t; induction l as [|a l IH]; intros [|t] H; cbn [sumZ length nth_error] in *; try discriminate.
+    - injection H as ->. pose proof (sumZ_bounds f l P). lia.
+    - specialize (IH _ H). specialize (P a). lia.
+  Qed.
+
+  Lemma Forall2_nth_error_r {A B} (R : A -> B -> Prop) l1 l2 u y :
+    Forall2 R l1 l2 -> nth_error l2 u = Some y -> exists x, nth_error l1 u = Some x /\ R x y.
+  Proof.
+    intros F. revert u. induction F as [|a b l1 l2 Rab F IH]; intros [|u] H; cbn in *; try discriminate.
+    - injection H as <-. exists a. split; [reflexivity | exact Rab].
+    - apply IH. exact H.
+  Qed.
+
+  Lemma Forall2_nth_error_l {A B} (R : A -> B -> Prop) l1 l2 u x :
+    Forall2 R l1 l2 -> nth_error l1 u = Some x -> exists y, nth_error l2 u = Some y /\ R x y.
+  Proof.
+    intros F. revert u. induction F as [|a b l1 l2 Rab F IH]; intros [|u] H; cbn in *; try discriminate.
+    - injection H as <-. exists b. split; [reflexivity | exact Rab].
+    - apply IH. exact H.
+  Qed.
+
+  Lemma Forall2_sumZ {A} (R : A -> A -> Prop) (f : A -> Z) l1 l2 :
+    Forall2 R l1 l2 -> (forall x y, R x y -> f y = f x) -> sumZ f l2 = sumZ f l1.
+  Proof. intros F E. induction F as [|a b l1 l2 Rab F IH]; cbn; [reflexivity | rewrite IH, (E _ _ Rab); reflexivity]. Qed.
+
+  Lemma Forall2_map_r {A} (R : A -> A -> Prop) g (l : list A) : (forall x, R x (g x)) -> Forall2 R l (map g l).
+  Proof. intros H. induction l; cbn; constructor; auto. Qed.
+
+  Lemma Forall2_refl {A} (R : A -> A -> Prop) (l : list A) : (forall x, R x x) -> Forall2 R l l.
+  Proof. intros H. induction l; constructor; auto. Qed.
+
+  (* the futex wake-all of slot i, per thread, and what it preserves *)
+  Definition wake1 (i : nat) (th : thread) : thread :=
+    match tpc th with PBlocked j k => if (j =? i)%nat then goto th (PWoken j k) else th | _ => th end.
+
+  Definition wrel (wake : bool) (i : nat) (x y : thread) : Prop :=
+    tmode y = tmode x /\ (forall j, ownz y j = ownz x j) /\ (forall j, rdz y j = rdz x j) /\ drain_upto y = drain_upto x /\
+    (wf_thread x -> wf_thread y) /\ (forall a k, tpc y = PRelWake a k <-> tpc x = PRelWake a k) /\
+    (forall a k, tpc y = PBlocked a k -> tpc x = PBlocked a k /\ (wake = true -> a <> i)) /\
+    (is_blocked_pc (tpc x) = false -> y = x).
+
+  Lemma wrel_refl i x : wrel false i x x.
+  Proof. unfold wrel. repeat split; auto; try tauto; try discriminate. Qed.
+
+  Lemma wrel_same wk i x : (forall a k, tpc x = PBlocked a k -> wk = true -> a <> i) -> wrel wk i x x.
+  Proof. intros H. unfold wrel. repeat split; auto; try tauto. eapply H; eauto. Qed.
+
+  Lemma wrel_wake1 i x : wrel true i x (wake1 i x).
+  Proof.
+    unfold wake1. destruct (tpc x) eqn:P; try (apply wrel_same; intros; congruence).
+    destruct (Nat.eqb_spec i0 i) as [->|D].
+    - destruct x as [p pr rs m]; cbn in P; subst p. unfold wrel, goto, ownz, own_range, rdz, rd, drain_upto, wf_thread; cbn.
+      repeat split; auto; try (intros; discriminate); destruct m; auto.
+    - apply wrel_same. intros a k0 E _. rewrite P in E. injection E as -> _. exact D.
+  Qed.
+
+  Lemma tstep_some_not_blocked w th x : tstep N K w th = Some x -> is_blocked_pc (tpc th) = false.
+  Proof. unfold tstep. destruct (tpc th); cbn; intros; try reflexivity; discriminate. Qed.
+
+  Lemma step_inv s t ch s' ch' site : Inv s -> step N K s t ch = Some (s', ch', site) -> Inv s'.
+  Proof.
+    intros (HL & (HWl & HW) & HT & HE & HNL) E. unfold step in E.
+    destruct (nth_error (threads s) t) as [th|] eqn:Ht; [|discriminate].
+    pose proof (nth_error_In _ _ Ht) as Hin.
+    assert (Wth : wf_thread th) by (rewrite Forall_forall in HT; apply HT, Hin).
+    pose proof (pslot_lt _ Wth) as Hi0. set (i0 := pslot (tpc th)) in *.
+    destruct (tstep N K (nth i0 (words s) 0) th) as [[[[w' th'] site'] wake]|] eqn:Et; [|discriminate].
+    injection E as <- _ _.
+    pose proof (tstep_some_not_blocked _ _ _ Et) as Hnb.
+    destruct (HW i0 Hi0) as [Hword Hown1].
+    set (A := nown (threads s) i0 - ownz th i0). set (B := ncnt (threads s) i0 - rdz th i0).
+    assert (HA : 0 <= A).
+    { unfold A, nown. pose proof (sumZ_ge (fun th => ownz th i0) _ _ _ (fun y => proj1 (ownz_range y i0)) Ht). cbn in H. lia. }
+    assert (HB : 0 <= B).
+    { unfold B, ncnt. pose proof (sumZ_ge (fun th => rdz th i0) _ _ _ (fun y => proj1 (rdz_range y i0)) Ht). cbn in H. lia. }
+    assert (HB1 : B + 1 < 2147483648).
+    { unfold B, ncnt. pose proof (sumZ_others_le (fun th => rdz th i0) _ _ _ (fun y => rdz_range y i0) Ht). cbn in H. lia. }
+    assert (SO : step_ok th (nth i0 (words s) 0) A B w' th' wake).
+    { eapply tstep_spec; eauto; fold i0; unfold A, B; lia. }
+    destruct SO as (Wf' & Hoth & Hw' & HA1' & Hdr & Hmr & Hbl & Hpw & Hwake & Hwb). fold i0 in Hoth, Hw', HA1', Hdr, Hmr, Hbl, Hpw, Hwb.
+    set (ths1 := if wake then wake_all i0 (threads s) else threads s).
+    assert (F2 : Forall2 (wrel wake i0) (threads s) ths1).
+    { unfold ths1. destruct wake; [apply Forall2_map_r, wrel_wake1 | apply Forall2_refl, wrel_refl]. }
+    assert (Ht1 : nth_error ths1 t = Some th).
+    { destruct (Forall2_nth_error_l _ _ _ _ _ F2 Ht) as [y [Hy Ry]]. destruct Ry as (_ & _ & _ & _ & _ & _ & _ & Rs). rewrite (Rs Hnb) in Hy. exact Hy. }
+    assert (Sown : forall j, nown ths1 j = nown (threads s) j).
+    { intros j. unfold nown. apply (Forall2_sumZ _ _ _ _ F2). intros x y R. apply R. }
+    assert (Scnt : forall j, ncnt ths1 j = ncnt (threads s) j).
+    { intros j. unfold ncnt. apply (Forall2_sumZ _ _ _ _ F2). intros x y R. apply R. }
+    assert (Hmem : forall y, In y (set_nth ths1 t th') -> y = th' \/ exists u x, u <> t /\ nth_error (threads s) u = Some x /\ wrel wake i0 x y).
+    { intros y Hy. destruct (in_set_nth_pos _ _ _ _ Hy) as [->|[u [Du Hu]]]; [left; reflexivity|]. right.
+      destruct (Forall2_nth_error_r _ _ _ _ _ F2 Hu) as [x [Hx Rx]]. exists u, x. auto. }
+    assert (Hnown' : forall j, nown (set_nth ths1 t th') j = nown (threads s) j - ownz th j + ownz th' j).
+    { intros j. unfold nown at 1. rewrite (sumZ_set_nth _ _ _ _ _ Ht1). fold (nown ths1 j). rewrite Sown. reflexivity. }
+    assert (Hncnt' : forall j, ncnt (set_nth ths1 t th') j = ncnt (threads s) j - rdz th j + rdz th' j).
+    { intros j. unfold ncnt at 1. rewrite (sumZ_set_nth _ _ _ _ _ Ht1). fold (ncnt ths1 j). rewrite Scnt. reflexivity. }
+    pose proof drained_owns as DO. pose proof blocked_owns as BO.
+    split; [|split; [|split; [|split]]]; cbn [words threads].
+    - (* length *) rewrite length_set_nth.
+      replace (length ths1) with (length (threads s)); [exact HL|]. unfold ths1. destruct wake; [unfold wake_all; rewrite map_length|]; reflexivity.
+    - (* WordsOk *) split; [cbn [words]; rewrite length_set_nth; exact HWl|]. cbn [words threads]. intros j Hj. rewrite Hnown', Hncnt'.
+      destruct (Nat.eq_dec j i0) as [->|D].
+      + rewrite nth_set_nth_eq by lia. unfold A, B in *. lia.
+      + rewrite nth_set_nth_neq by lia. destruct (Hoth j D) as [-> ->]. destruct (HW j Hj). lia.
+    - (* wf *) cbn [threads]. apply Forall_forall. intros y Hy. destruct (Hmem y Hy) as [->|(u & x & Du & Hx & Rx)]; [exact Wf'|].
+      apply Rx. rewrite Forall_forall in HT. apply HT. eapply nth_error_In; eauto.
+    - (* Excl *) intros y1 y2 j H1 H2 Hd Hm. cbn [threads] in H1, H2.
+      destruct (Hmem y1 H1) as [->|(u1 & x1 & Du1 & Hx1 & R1)]; destruct (Hmem y2 H2) as [->|(u2 & x2 & Du2 & Hx2 & R2)].
+      + unfold drain_upto in Hd. rewrite Hm in Hd. lia.
+      + destruct R2 as (Rm & _ & Rr & _). rewrite Rm in Hm. destruct (Hdr j Hd) as [Hd'|[-> HB0]].
+        * eapply (HE th x2 j); eauto. eapply nth_error_In; eauto.
+        * assert (rdz x2 i0 = 1) by (unfold rdz, rd; rewrite Hm, Nat.eqb_refl; reflexivity).
+          pose proof (sumZ_ge2 (fun th => rdz th i0) _ _ _ _ _ (fun y => proj1 (rdz_range y i0)) Du2 Hx2 Ht) as G. cbn in G.
+          unfold B, ncnt in HB0. lia.
+      + destruct R1 as (_ & _ & _ & Rd & _). rewrite Rd in Hd.
+        assert (Wx1 : wf_thread x1) by (rewrite Forall_forall in HT; apply HT; eapply nth_error_In; eauto).
+        destruct (Hmr j Hm) as [Hm'|[-> HA0]].
+        * eapply (HE x1 th j); eauto. eapply nth_error_In; eauto.
+        * pose proof (DO _ _ Wx1 Hd) as O1.
+          pose proof (sumZ_ge2 (fun th => ownz th i0) _ _ _ _ _ (fun y => proj1 (ownz_range y i0)) Du1 Hx1 Ht) as G. cbn in G.
+          unfold A, nown in HA0. lia.
+      + destruct R1 as (_ & _ & _ & Rd & _). rewrite Rd in Hd. destruct R2 as (Rm & _). rewrite Rm in Hm.
+        eapply (HE x1 x2 j); eauto; eapply nth_error_In; eauto.
+    - (* NoLost *) intros i [b [kb [Hb Pb]]] Hwi. cbn [words threads] in *.
+      assert (PEND : forall up p k, up <> t -> nth_error (threads s) up = Some p -> tpc p = PRelWake i k ->
+                     exists th0 k0, In th0 (set_nth ths1 t th') /\ tpc th0 = PRelWake i k0).
+      { intros up p k Dup Hp Pp. destruct (Forall2_nth_error_l _ _ _ _ _ F2 Hp) as [y [Hy Ry]].
+        exists y, k. split; [eapply in_set_nth_other; eauto | apply Ry; exact Pp]. }
+      destruct (Hmem b Hb) as [->|(u & x & Du & Hx & Rx)].
+      + destruct (Hbl _ _ Pb) as [-> Hne]. rewrite nth_set_nth_eq in Hwi by lia. contradiction.
+      + destruct Rx as (_ & _ & _ & _ & _ & _ & Rb & _). destruct (Rb _ _ Pb) as [Px Hwk].
+        assert (Wx : wf_thread x) by (rewrite Forall_forall in HT; apply HT; eapply nth_error_In; eauto).
+        assert (OldB : exists th0 k0, In th0 (threads s) /\ tpc th0 = PBlocked i k0) by (exists x, kb; split; [eapply nth_error_In; eauto | exact Px]).
+        destruct (Nat.eq_dec i i0) as [->|D].
+        * rewrite nth_set_nth_eq in Hwi by lia.
+          destruct (Hwb Hwi) as [Hold|[Hp|HA0]].
+          -- destruct (HNL i0 OldB Hold) as (p & k & Hp & Pp). apply In_nth_error in Hp. destruct Hp as [up Hp].
+             destruct (Nat.eq_dec up t) as [->|Dup]; [|eapply PEND; eauto].
+             rewrite Ht in Hp. injection Hp as <-. exfalso. rewrite Pp in Hwake. cbn in Hwake. apply Hwk; auto.
+          -- destruct (tpc th') eqn:P'; try discriminate. exists th', k. split; [eapply set_nth_in; eauto|]. rewrite P'. f_equal. eapply Hpw; eauto.
+          -- pose proof (BO _ _ _ Wx Px) as O1.
+             pose proof (sumZ_ge2 (fun th => ownz th i0) _ _ _ _ _ (fun y => proj1 (ownz_range y i0)) Du Hx Ht) as G. cbn in G.
+             unfold A, nown in HA0. lia.
+        * rewrite nth_set_nth_neq in Hwi by lia.
+          destruct (HNL i OldB Hwi) as (p & k & Hp & Pp). apply In_nth_error in Hp. destruct Hp as [up Hp].
+          destruct (Nat.eq_dec up t) as [->|Dup]; [|eapply PEND; eauto].
+          rewrite Ht in Hp. injection Hp as <-. exfalso. apply D. unfold i0. rewrite Pp. reflexivity.
+  Qed.
 End RW.
